@@ -35,7 +35,7 @@ def spec_cfg(res):
     raise Infra("specification did not print its instance")
 
 
-def replay(ctx, cfg, behs, name, timeout=1500):
+def run_replay(ctx, cfg, behs, name, timeout=1500):
     if cfg["qlen"] != REAL["superQueueLen"] or cfg["future"] != REAL["superQueueFutureSlots"] \
             or cfg["spread"] != REAL["spread"] or cfg["timing_shard"] != REAL["timingShard"]:
         raise Infra("%s: behaviours were not generated with the real constants: %s" % (name, cfg))
@@ -48,7 +48,14 @@ def replay(ctx, cfg, behs, name, timeout=1500):
     if cnt.get("driver_errors"):
         ctx.save("driver_notes_%s.txt" % name, "\n".join(res.get("notes", [])) + "\n" + out[-5000:])
         raise Infra("driver error in %s: %s" % (name, res.get("notes")))
-    n = ctx.replay_s2i_mismatches(res, name)
+    n = 0
+    for mm in (res.get("mismatches") or [])[:5]:   # witnesses carry the instance, so that --replay can rerun them alone
+        n += 1
+        mm["cfg"] = cfg
+        path = ctx.save("%s_mismatch_%d.json" % (name, n), mm)
+        ctx.violation(mm.get("sig") or name, "%s: step %s (%s) %s want=%s got=%s" % (
+            name, mm.get("step"), (mm.get("beh") or [{}] * (mm.get("step", 0) + 1))[mm.get("step", 0)].get("a"), mm.get("note"),
+            json.dumps(mm.get("want"))[:400], json.dumps(mm.get("got"))[:400]), path)
     ctx.ev.add_impl(name, res["replayed"] if n == 0 else 0, steps=res["steps"], given=len(behs), agents_per_behaviour=2,
                     distinct_event_classes=res.get("distinct", 0),
                     steps_by_action={k[6:]: v for k, v in cnt.items() if k.startswith("steps:")})
@@ -57,6 +64,16 @@ def replay(ctx, cfg, behs, name, timeout=1500):
     if n == 0 and res["replayed"] != len([b for b in behs if b]):
         raise Infra("%s: %d of %d behaviours replayed" % (name, res["replayed"], len(behs)))
     return res
+
+
+def replay(ctx, path):
+    """tools/check C08 --replay <witness>: rerun one stored behaviour on the current tree."""
+    with open(path) as f:
+        w = json.load(f)
+    if "cfg" not in w or "beh" not in w:
+        raise Infra("not a C08 witness: %s" % path)
+    print("replaying behaviour of %d steps; it diverged at step %s: %s" % (len(w["beh"]), w.get("step"), w.get("note")))
+    run_replay(ctx, w["cfg"], [w["beh"]], "replayed_witness")
 
 
 def last_per_trace(behs, rnd, keep=1):
@@ -138,7 +155,7 @@ def run(ctx):
     if not take:
         raise Infra("no behaviours exported")
     ctx.ev.set("boundary_behaviours_exported", len(full))
-    replay(ctx, spec_cfg(beh), take, "tlc_behaviours_boundary")
+    run_replay(ctx, spec_cfg(beh), take, "tlc_behaviours_boundary")
     nsim = 250 if th else 24
     sim = ctx.tlc("AgentQueueMC", "AgentQueue_sim.cfg", simulate=(nsim, 46), timeout=2400, heap=HEAP,
                   name="simulated long behaviours, real constants",
@@ -147,7 +164,7 @@ def run(ctx):
     simb = last_per_trace(sim.behaviours, rnd)
     if not simb:
         raise Infra("simulation exported nothing")
-    replay(ctx, spec_cfg(sim), simb, "simulated_long")
+    run_replay(ctx, spec_cfg(sim), simb, "simulated_long")
     ctx.ev.assume("single-threaded driver: one public call at a time (every call of the real code holds the shard "
                   "mutex for its whole critical section; FlushAllData runs after the flusher stopped, as in production)")
     ctx.ev.assume("rows added by Agent.addBuiltins (queue sizes, cache statistics of the previous second) are kept out of the "
